@@ -321,6 +321,41 @@ func zzRxCleartextAppDataNotDelivered() {
 	zzsymCover("cleartext_appdata_refused")
 }
 
+// The same on a DTLS 1.3 connection (an endpoint that negotiated DTLS 1.3; read keys of epoch 3 installed or, earlier
+// in the handshake, only those of epoch 2): an application_data record in the DTLS 1.2 framing - unprotected by
+// construction, DTLS 1.3 protects records only under the unified header - that claims epoch 0, 1, 2 or 3 is never
+// delivered to Read. The cipher suite is one of the three REAL DTLS 1.3 suites: their legacy Decrypt entry point is
+// what stands between such a record and Read.
+//
+//symgo:entry covers=cleartext_appdata_refused13
+func zzRxCleartextAppDataNotDelivered13() {
+	suite, nw := &zzTxSuite{}, &zzTxNet{}
+	c := zzTxConn(suite, nw)
+	common := dtlsstate.CommonState(c.state)
+	st := dtlsstate.Activate13(c.state)
+	c.state = st
+	common.LocalVersion = protocol.Version1_3
+	common.CipherSuite = defaultCipherSuites13()[zzsymChoice("suite13", 3)]
+	remote := uint16(2 + zzsymChoice("handshake_or_application_keys", 2))
+	common.SetRemoteEpoch(remote)
+	common.SetLocalEpoch(remote)
+	if remote == 3 {
+		dtlshandshake.ZZMarkEstablished(c.handshakeEstablished)
+	}
+	c.replayProtectionWindow = 64
+	st.TrafficKeys.Install(nil, &dtlsstate.TrafficGeneration{Epoch: remote, Protection: &zzSeal13{}})
+	pay := zzsymBytes("pay", zzsymParam("NPAY"))
+	epoch := uint16(zzsymChoice("claimed_epoch", 4))
+	zzsymAssume(epoch <= remote)
+	h := recordlayer.Header{ContentType: protocol.ContentTypeApplicationData, Version: protocol.Version1_2, Epoch: epoch,
+		SequenceNumber: zzsymU64("seq") & recordlayer.MaxSequenceNumber, ContentLen: uint16(len(pay))}
+	raw, err := h.Marshal()
+	zzsymAssert(err == nil, "harness_header")
+	_, _ = c.handleIncomingPacket(context.Background(), append(raw, pay...), &net.UDPAddr{Port: 2}, nil)
+	zzsymAssert(len(c.decrypted) == 0, "cleartext_application_data_never_delivered13")
+	zzsymCover("cleartext_appdata_refused13")
+}
+
 // DTLS 1.2 Finished on the wire: Conn.writePackets on the final flight as the generators hand it over
 // (finished12.go proves the flags) - a cleartext ChangeCipherSpec in epoch 0 followed by a handshake Finished with 12
 // arbitrary verify_data bytes marked ShouldEncrypt in epoch 1, with and without a negotiated connection ID, MTU
